@@ -4,7 +4,7 @@
 From Coq Require Import List String Bool Arith.
 From Annet Require Import Base.Str Base.Tree Model.Rulebook Model.Diff Spec.P_C03 Proofs.DiffBasics
   Proofs.DiffProofsLib Proofs.DiffProofsAnnot Proofs.DiffProofsSelf Proofs.DiffProofsLossless
-  Proofs.DiffProofsOrder Proofs.DiffProofsMoved Proofs.DiffProofsWhole.
+  Proofs.DiffProofsOrder Proofs.DiffProofsMoved Proofs.DiffProofsWhole Proofs.DiffProofsProj.
 Import ListNotations.
 
 Section C03.
@@ -39,6 +39,18 @@ Section C03.
     rewrite_whole (annot_f rmatch rs old) (annot_f rmatch rs new) (make_diff rmatch rs old new) = true.
   Proof. exact (diff_rewrite_whole_lib rmatch). Qed.
 
+  (* dropping the ADDED entries gives old|R, dropping the REMOVED ones gives new|R *)
+  Theorem diff_projections : forall rs old new, wf old -> wf new ->
+    (norw (annot_f rmatch rs old) = true ->
+     fperm (proj_old (make_diff rmatch rs old new)) (erase_f (annot_f rmatch rs old))) /\
+    (norw (annot_f rmatch rs new) = true ->
+     fperm (proj_new (make_diff rmatch rs old new)) (erase_f (annot_f rmatch rs new))).
+  Proof.
+    intros rs old new Ho Hn. split; intros Hr.
+    - apply (diff_proj_old rmatch); assumption.
+    - apply (diff_proj_new rmatch); assumption.
+  Qed.
+
   Theorem diff_P_C03 : forall rs old new, wf old -> wf new ->
     P_C03 rmatch (rs, old, new) (make_diff rmatch rs old new) = true.
   Proof.
@@ -55,4 +67,5 @@ Print Assumptions diff_order_ok.
 Print Assumptions diff_moved_ok.
 Print Assumptions diff_moved_all.
 Print Assumptions diff_rewrite_whole.
+Print Assumptions diff_projections.
 Print Assumptions diff_P_C03.
